@@ -96,6 +96,21 @@ func (shardComp) Gen(rng *rand.Rand, tier string) [][]string {
 				}
 				h = append(h, fmt.Sprintf("id %d %s", n, hx(key)))
 			}
+			// witnesses for "every id is produced": the big-endian keys of the largest id, of the ids around the mask boundary and of
+			// a random one
+			sig := (bitLen(uint64(n-1))-1)/8 + 1
+			half := int64(1) << uint(bitLen(uint64(n-1))-1)
+			for _, id := range []int64{n - 1, half, half + 1, half - 1, rng.Int63n(n)} {
+				if id < 0 || id >= n {
+					continue
+				}
+				key := make([]byte, sig)
+				for x, v := sig-1, id; x >= 0; x-- {
+					key[x] = byte(v)
+					v >>= 8
+				}
+				h = append(h, fmt.Sprintf("id %d %s", n, hx(key)))
+			}
 			if n <= 2000 && rng.Intn(4) == 0 {
 				h = append(h, fmt.Sprintf("onto %d", n))
 			}
@@ -187,6 +202,43 @@ func (r *shardRunner) Exec(line string) string {
 			r.tag("id-long")
 		} else {
 			r.tag("id-short")
+		}
+		// oracle C19: every id is produced by some key. A key of exactly `sig` bytes whose big-endian value v is below n is the
+		// obvious witness for v; when it does NOT produce v, look for any other witness (all keys of sig <= 3 bytes — conclusive
+		// given that only the trailing bytes count; for 4 bytes the keys that agree with v on the bits below the mask width)
+		if len(key) == sig {
+			v := int64(0)
+			for _, b := range key {
+				v = v<<8 | int64(b)
+			}
+			if v < n && int64(id) != v {
+				found := false
+				probe := make([]byte, sig)
+				try := func(x int64) bool {
+					for i := sig - 1; i >= 0; i-- {
+						probe[i] = byte(x)
+						x >>= 8
+					}
+					return int64(sp.ComputeId(probe)) == v
+				}
+				if sig <= 3 {
+					for x := int64(0); x < int64(1)<<(8*uint(sig)) && !found; x++ {
+						found = try(x)
+					}
+				} else {
+					bits := uint(bitLen(uint64(n - 1)))
+					for j := int64(0); j < int64(1)<<(32-bits) && !found; j++ {
+						found = try(v|j<<bits) || try(v|j<<(bits-1))
+					}
+				}
+				if !found {
+					r.add("C19", "onto", fmt.Sprintf("n=%d: id %d is produced by no key (its big-endian key %s gives %d; searched %s)", n, v, hx(key), id,
+						map[bool]string{true: "every key of that length", false: "every key agreeing with it below the mask width"}[sig <= 3]))
+				} else {
+					r.tag("id-witness-elsewhere")
+				}
+			}
+			r.tag("id-canonical")
 		}
 		// stability
 		if sp.ComputeId(key) != id {
